@@ -1314,15 +1314,22 @@ func build(tier string) []*vkit.Scenario {
 	// count explodes (a second connection plus peer traffic) stay at the quick bound
 	core(cheapE, singles, "stop", 3, false)
 	core(cheapE, extraSingles, "stop", 3, false)
-	core(midE, singles, "stop", 3, false)
-	core(heavyE, singles, "stop", 2, false)
-	core(cheapE, doubles, "stop", 3, false)
+	core(midE, light(singles, true), "stop", 3, false)
+	core(midE, light(singles, false), "stop", 2, false)
+	core(heavyE[:2], singles, "stop", 2, false)
+	core(heavyE[2:], light(singles, true), "stop", 2, false)
+	core(heavyE[2:], light(singles, false), "stop", 1, false)
+	core(cheapE, light(doubles, true), "stop", 3, false)
+	core(cheapE, light(doubles, false), "stop", 2, false)
 	core(midE, doubles, "stop", 2, false)
-	core(heavyE[:2], doubles, "stop", 2, false)
+	core(heavyE[:2], light(doubles, true), "stop", 2, false)
+	core(heavyE[:2], light(doubles, false), "stop", 1, false)
 	core(fewE, light(triples, true), "stop", 3, false)
 	core(fewE, light(triples, false), "stop", 2, false)
-	core(midE, triples, "stop", 2, false)
-	core(heavyE[:1], triples, "stop", 2, false)
+	core(midE, light(triples, true), "stop", 2, false)
+	core(midE, light(triples, false), "stop", 1, false)
+	core(heavyE[:1], light(triples, true), "stop", 2, false)
+	core(heavyE[:1], light(triples, false), "stop", 1, false)
 	core(cheapE, shutdownCases, "shutdown-bg", 3, false)
 	core(cheapE, shutdownCases, "shutdown-ctx", 3, false)
 	core(cheapE, singles, "stop", 2, true)
